@@ -4,7 +4,7 @@ From Coq Require Import ZArith List Bool Lia.
 From TV Require Import spec.PyBase spec.PyLib spec.Storage model.TensorBuild model.TensorBuildPy
   proofs.StorageLemmas proofs.TensorBuildLemmas proofs.TensorBuildTop proofs.TensorBuildMain
   proofs.GenTensorBuild_lib proofs.GenTensorBuild_tree proofs.GenTensorBuild_emit
-  proofs.GenTensorBuild_build proofs.GenTensorBuild_items proofs.GenTensorBuild_validate proofs.TensorBuildLol.
+  proofs.GenTensorBuild_build proofs.GenTensorBuild_items proofs.GenTensorBuild_validate proofs.GenTensorBuild_state proofs.TensorBuildLol.
 From TV Require gen.TensorBuildGen.
 Module G := TensorBuildGen.
 Import ListNotations.
@@ -266,3 +266,64 @@ Proof.
   rewrite (lolrec_ok x fuel [] [] [] Hx). cbn [rbind app rev].
   now apply gen_from_aos_general.
 Qed.
+(** ** to_format *)
+Theorem gen_to_format_equiv strict (t : tensor Z) fmt' fuel :
+  wf_tensorb strict t = true -> valid_formatb fmt' = true ->
+  (length (levels t) < fuel)%nat -> (length (fmodes fmt') <= fuel)%nat ->
+  G.to_format Z 0 Z.add Z.eqb fuel (Z.of_nat (length (ordering t))) (map gmode (levels t)) (Storage.dims t)
+    (map Z.of_nat (ordering t)) (indices_of (levels t)) (vals t) (gfmt fmt')
+  = match to_format_spec fmt' t with Ok t' => Val (stored t') | Err _ => Exc end.
+Proof.
+  intros Hwf Hv Hf1 Hf2. unfold G.to_format.
+  rewrite (gen_items_ok strict t fuel Hwf Hf1). cbn [rbind].
+  rewrite gen_to_dok_ok. cbn [rbind]. unfold to_format_spec.
+  exact (gen_from_dok_equiv fmt' (Storage.dims t) (to_dok_spec t) fuel Hv Hf2).
+Qed.
+
+(** C09_to_format_preserves_any_wf on the regenerated functions *)
+Theorem gen_to_format_preserves strict (t : tensor Z) fmt' fuel :
+  wf_tensorb strict t = true -> valid_formatb fmt' = true ->
+  length (fordering fmt') = length (Storage.dims t) ->
+  (length (levels t) < fuel)%nat -> (length (fmodes fmt') <= fuel)%nat ->
+  exists t',
+    G.to_format Z 0 Z.add Z.eqb fuel (Z.of_nat (length (ordering t))) (map gmode (levels t)) (Storage.dims t)
+      (map Z.of_nat (ordering t)) (indices_of (levels t)) (vals t) (gfmt fmt') = Val (stored t')
+    /\ (forall c v, In (c, v) (to_dok_spec t') <-> In (c, v) (to_dok_spec t))
+    /\ NoDup (map fst (to_dok_spec t'))
+    /\ format_of t' = fmt' /\ Storage.dims t' = Storage.dims t /\ wf_tensorb true t' = true.
+Proof.
+  intros Hwf Hv Hl Hf1 Hf2.
+  destruct (main_to_format_general strict t fmt' Hwf Hv Hl) as (t' & E & H).
+  exists t'. split; [|exact H].
+  rewrite (gen_to_format_equiv strict t fmt' fuel Hwf Hv Hf1 Hf2), E. reflexivity.
+Qed.
+
+(** the accessors and pickling (proofs/GenTensorBuild_state.v) under the names of the TIE entry *)
+Lemma gen_taco_indices_equiv : forall strict (t : tensor Z), wf_tensorb strict t = true ->
+  G.taco_indices Z 0 Z.add Z.eqb (Z.of_nat (length (ordering t))) (Storage.dims t) (map gmode (levels t))
+    (map Z.of_nat (ordering t)) (indices_of (levels t))
+  = Val (indices_of (levels t)).
+Proof. exact gen_taco_indices_ok. Qed.
+
+Lemma gen_taco_vals_equiv : forall t : tensor Z, wf_tensorb true t = true ->
+  G.taco_vals Z 0 Z.add Z.eqb (Z.of_nat (length (ordering t))) (Storage.dims t) (map gmode (levels t))
+    (map Z.of_nat (ordering t)) (indices_of (levels t)) (vals t)
+  = Val (vals t).
+Proof. intros t H. exact (gen_taco_vals_ok true t H). Qed.
+
+Lemma gen_getstate_equiv : forall t : tensor Z, wf_tensorb true t = true ->
+  G.__getstate__ Z 0 Z.add Z.eqb (Z.of_nat (length (ordering t))) (map gmode (levels t)) (Storage.dims t)
+    (map Z.of_nat (ordering t)) (indices_of (levels t)) (vals t)
+  = Val (state_of t).
+Proof. exact gen_getstate_ok. Qed.
+
+Lemma gen_setstate_equiv : forall t : tensor Z,
+  G.__setstate__ Z 0 Z.add Z.eqb (state_of t) = if validate t then Val (stored t) else Exc.
+Proof. exact gen_setstate_ok. Qed.
+
+Lemma gen_pickle_roundtrip_equiv : forall t : tensor Z, wf_tensorb true t = true ->
+  rbind (G.__getstate__ Z 0 Z.add Z.eqb (Z.of_nat (length (ordering t))) (map gmode (levels t)) (Storage.dims t)
+           (map Z.of_nat (ordering t)) (indices_of (levels t)) (vals t))
+        (G.__setstate__ Z 0 Z.add Z.eqb)
+  = Val (stored t).
+Proof. exact gen_pickle_roundtrip. Qed.
